@@ -583,7 +583,12 @@ func (vc *VC) guaranteeObl(fr *Frame, st *State, addr Term, ty types.Type, cur, 
 		env.names["cur"] = Bound{cur, ty}
 		env.names["new"] = Bound{nw, ty}
 		g := vc.specBool(env, cl)
-		vc.addObl(fr, st, "guarantee", cl.Label, Implies(cond, g), cl, pos)
+		if o := vc.addObl(fr, st, "guarantee", cl.Label, Implies(cond, g), cl, pos); o != nil {
+			o.Evals = append(o.Evals, NamedTerm{"cur", cur}, NamedTerm{"new", nw})
+			for _, p := range vc.fn.Params {
+				o.Evals = append(o.Evals, NamedTerm{p.Name(), vc.top.vals[p]})
+			}
+		}
 	}
 }
 
